@@ -46,6 +46,14 @@ def children(n):
     if not isinstance(n, dict):
         return
     k = n.get("k")
+    if k == "Block":
+        # statements first, then the tail expression (evaluation order)
+        for st in n.get("stmts") or []:
+            if isinstance(st, dict):
+                yield st
+        if isinstance(n.get("e"), dict):
+            yield n["e"]
+        return
     for key in CHILD_KEYS:
         if key not in n:
             continue
